@@ -594,8 +594,10 @@ class Verifier(Stmts):
         st.assume(f)
         return f
 
-    def use_contract(self_, st, qualname, **args):
+    def use_contract(self_, st, qualname, _returned=False, **args):
         self = self_
+        # _returned: the lemma is ABOUT a call that returned normally (e.g. one made inside a validator that returned);
+        # the post-conditions are then facts about its result without a termination/normal-return argument
         """lemma step: instantiate a verified contract at given arguments.  Adds  pred(args) ==> ensures(args)  to the
         state (as separate top-level facts when pred(args) already follows from the state).  Sound because the function's
         own obligations are part of the same check and the function is deterministic (normal return is a predicate of
@@ -641,7 +643,7 @@ class Verifier(Stmts):
         if con.predicate_:
             if not self.quick_prove(hyps_now, pred) and roi_refuted():
                 st.assume(pred)
-        elif not con.never_raises:
+        elif not con.never_raises and not _returned:
             if not roi_refuted():
                 raise Outside("use_contract(%s): cannot establish that the call returns normally" % qualname)
         if self.quick_prove(list(self.axioms) + list(self.func_axioms) + list(st.pc), guard):
